@@ -382,6 +382,8 @@ def scalar_family_cases(ctx, cuqi, state, cases, stats):
                 for via in VIAS[fam]:
                     reps = ctx.n(1, 6) if via == "direct" else ctx.n(1, 2)
                     methods = ["logpdf", "pdf", "logd"] if via != "logd" else ["logd"]
+                    if not ctx.thorough and via != "logd" and not (n in (1, 3) and via == "direct"):
+                        methods = ["logpdf"]            # quick: pdf / logd only in the (dim 1, dim 3) x direct cells
                     if fam == "Normal":
                         methods = methods + ["pdf_own"] if via != "logd" else methods
                     if fam == "Cauchy" and via == "direct":
@@ -595,35 +597,21 @@ def g_observe(cuqi, meta):
             return out
 
 
-def g_doc_cov(meta):
-    """covariance matrix the DOCUMENTATION assigns to the input (exact), as Fractions"""
-    M = fr_mat(g_dense(meta))
-    form, n = meta["form"], meta["dim"]
-    I = [[Fraction(int(i == j)) for j in range(n)] for i in range(n)]
-    def inv(A):
-        cols = []
-        for j in range(n):
-            xj, det = fr_solve_det(A, [I[i][j] for i in range(n)])
-            if xj is None:
-                return None
-            cols.append(xj)
-        return fr_T(cols)
-    if form == "cov":
-        return M
-    if form == "prec":
-        return inv(M)
-    if form == "sqrtcov":
-        return fr_mm(fr_T(M), M)                 # documented: R^T R = cov
-    return inv(fr_mm(fr_T(M), M))                # documented: R^T R = prec
-
-
 def g_documented(meta):
-    """log of the documented Gaussian density (and the pieces), from exact rationals"""
-    n = meta["dim"]
-    cov = g_doc_cov(meta)
+    """log of the documented Gaussian density from exact rationals: (det cov, (x-m)^T cov^-1 (x-m)) per documented reading
+         cov=M: cov = M;  prec=M: cov = M^-1;  sqrtcov=M: cov = M^T M;  sqrtprec=M: cov = (M^T M)^-1"""
+    n, form = meta["dim"], meta["form"]
+    M = fr_mat(g_dense(meta))
     d = [frac(a) - frac(b) for a, b in zip(meta["x"], bc(meta["mean"], n))]
-    y, det = fr_solve_det(cov, d)
-    quad = fr_dot(d, y)
+    if form in ("cov", "sqrtcov"):
+        C = M if form == "cov" else fr_mm(fr_T(M), M)
+        y, det = fr_solve_det(C, d)
+        quad = fr_dot(d, y)
+    else:
+        P = M if form == "prec" else fr_mm(fr_T(M), M)
+        _, detP = fr_solve_det(P, d)
+        det = 1 / detP
+        quad = fr_dot(d, fr_mv(P, d))
     logdet = math.log(det.numerator) - math.log(det.denominator)
     lp = -0.5 * (n * LOG2PI + logdet) - 0.5 * float(quad)
     return {"logpdf": lp, "logd": lp, "pdf": math.exp(lp), "logupdf": -0.5 * float(quad)}
@@ -858,8 +846,8 @@ def gaussian_cases(ctx, cuqi, state, cases, stats):
     for n in [thr - 1, thr, thr + 1, thr + 2]:
         for form in GFORMS:
             for gk in ["scalar", "vector", "spdiag", "densefull"]:
-                if gk == "densefull" and not ctx.thorough and n in (thr - 1, thr + 2):
-                    continue
+                if gk == "densefull" and not ctx.thorough and not (n == thr + 1 or (n == thr and form == "cov")):
+                    continue                # quick: every form just above the switch (sparse branch), one just below
                 mean = pt(1) if (n + len(gk)) % 2 == 0 else pt(n)
                 meta = {"kind": "gaussian", "form": form, "gkind": gk, "dim": n, "mean": mean, "via": "direct", "method": "logpdf", "x": pt(n)}
                 if gk == "scalar":
